@@ -107,9 +107,9 @@ CHECKS = {
         technique="Lean 4 proof (scanner = reference cutter, induction over matches) + exhaustive short-string correspondence",
         ref="§4 C15"),
     "C07": dict(
-        text="Theorem C07_rmslice_spec (all WF testcases, all integer/None bounds with clamp a <= clamp b): rmslice removes exactly the reducible atoms of rank [a',b'), keeps everything else, length drops by b'-a'; C07_clamp, C07_len_counts. Tied to testcases.py by exhaustive differential execution of copy()+rmslice() vs the model over all layouts <= 7/8 and all index pairs around the range, plus an independent monitor as failing-input search.",
-        note=NOTE + "The aliasing clause ('a copy is independent') rests on the monitor only.",
-        technique="Lean 4 proof (induction over lists, index translation lemma) + exhaustive model/code correspondence",
+        text="Theorem C07_rmslice_spec (all WF testcases, all integer/None bounds with clamp a <= clamp b): rmslice removes exactly the reducible atoms of rank [a',b'), keeps everything else, length drops by b'-a'; C07_clamp, C07_len_counts. C07_copy_independent (heap model Alias: testcase objects hold references to list objects; copy() and rmslice() allocate fresh lists, callers may edit a list in place; for EVERY history of copy / rmslice / in-place edits over any number of objects, an operation on one object leaves every other object's parts and flags as they were, and copy() also the original — invariant: no two objects ever share a list), C07_copy_equal, C07_rmslice_on_object. Tied to testcases.py by exhaustive differential execution of copy()+rmslice() vs the model over all layouts <= 7/8 and all index pairs around the range, plus an independent monitor as failing-input search.",
+        note=NOTE + "The aliasing clause is a theorem about a heap model whose allocation behaviour (which operations create new list objects) is tied to the code by comparing contents AND the sharing structure (`is`) after random object histories over all five testcase classes.",
+        technique="Lean 4 proof (induction over lists, index translation lemma; no-sharing invariant over a heap of list objects) + exhaustive model/code correspondence",
         ref="§4 C07"),
 }
 
